@@ -206,6 +206,9 @@ var accNegatives = []struct{ Name, Text string }{
 	{"path-or-object-form-undefined", "JSIGHT 0.3\nGET /a/{id}\n  Path\n  {\n    \"id\": 1 // {or: [{type: \"@undefined\"}, {type: \"integer\"}]}\n  }\n  200 any\n"},
 	{"regex-invalid-pattern", "JSIGHT 0.3\nGET /a\n  200 regex\n  /[a-/\n"},
 	{"regex-type-invalid-pattern", "JSIGHT 0.3\nTYPE @r regex\n  /[a-/\nGET /a\n  200 @r\n"},
+	{"regex-invalid-pattern-undeclared-path-param", "JSIGHT 0.3\nGET /a/{id}\n  200 regex\n  /[a-/\n"},
+	{"regex-invalid-request-undeclared-path-param", "JSIGHT 0.3\nPOST /a/{id}/b/{x}\n  Request regex\n  /[z-a]/\n  200 any\n"},
+	{"query-and-headers-undeclared-path-param", "JSIGHT 0.3\nTYPE @h\n  {\"H\": \"1\"}\nGET /a/{id}\n  Query\n  {\"q\": 1}\n  Request\n    Headers @h\n    Body any\n  200\n    Headers @h\n    Body regex\n    /(/\n"},
 	{"body-only-annotation", "JSIGHT 0.3\nGET /a\n  200\n    // only an annotation\n  404 any\n"},
 	{"type-body-only-annotation", "JSIGHT 0.3\nTYPE @t\n  // only an annotation\nGET /a\n  200 any\n"},
 	{"allof-key-shortcut-clash", "JSIGHT 0.3\nTYPE @name\n  \"n\"\nTYPE @base\n  {\n    @name: 1\n  }\nTYPE @d\n  { // {allOf: \"@base\"}\n    \"@name\": 2\n  }\nGET /a\n  200 @d\n"},
